@@ -332,7 +332,7 @@ theorem enforce_sim (w : Nat) : ∀ t : AT, Sim t (enforce w t)
   | .leaf a => simA_resize w a
   | .idx a k => ⟨simA_resize w a, Sim.refl k⟩
   | .n1 a k => ⟨SimA.refl a, enforce_sim w k⟩
-  | .n2 a k1 k2 => ⟨SimA.refl a, enforce_sim w k1, enforce_sim w k2⟩
+  | .n2 a k1 k2 => ⟨by split; exact simA_resize w a; exact SimA.refl a, enforce_sim w k1, enforce_sim w k2⟩
   | .ite a c t f => ⟨simA_resize w a, Sim.refl c, enforce_sim w t, enforce_sim w f⟩
 
 theorem Sim.ann : ∀ {t t' : AT}, Sim t t' → SimA t.ann t'.ann := by
